@@ -390,6 +390,11 @@ add = _binary(lambda a, b: a + b)
 subtract = _binary(lambda a, b: a - b)
 divide = _binary(lambda a, b: a / b)
 true_divide = divide
+bitwise_and = _binary(lambda a, b: a & b)
+bitwise_or = _binary(lambda a, b: a | b)
+bitwise_xor = _binary(lambda a, b: a ^ b)
+right_shift = _binary(lambda a, b: a >> b)
+left_shift = _binary(lambda a, b: a << b)
 
 
 def reciprocal(a, out=None, **k):
@@ -468,7 +473,7 @@ def make_np():
                'ascontiguousarray', 'arange', 'linspace', 'cumsum', 'sum', 'sqrt', 'floor', 'ceil', 'rint', 'round_', 'absolute',
                'conj', 'conjugate', 'real', 'imag', 'sin', 'cos', 'sinc', 'exp', 'log10', 'log', 'isnan', 'isfinite', 'minimum',
                'maximum', 'isclose', 'concatenate', 'diff', 'all', 'any', 'argsort', 'searchsorted', 'isscalar', 'shape',
-               'dtype', 'issubdtype', 'may_share_memory', 'atleast_1d', 'atleast_2d', 'where', 'multiply', 'add', 'subtract', 'divide', 'true_divide', 'reciprocal']:
+               'dtype', 'issubdtype', 'may_share_memory', 'atleast_1d', 'atleast_2d', 'where', 'multiply', 'add', 'subtract', 'divide', 'true_divide', 'reciprocal', 'bitwise_and', 'bitwise_or', 'bitwise_xor', 'right_shift', 'left_shift']:
         d[nm] = g[nm]
     d['abs'] = absolute
     d['round'] = rint
